@@ -87,6 +87,9 @@ impl HttpClient {
     fn send_request(&self, method: Method, url: &str, headers: Headers, body: Option<Body>,
                     timeout: Duration) -> GenericResult<HttpResponse>
     {
+        #[cfg(vsb_verif)]
+        let url = &verif_rewrite_url(url);
+
         let client = Client::builder().timeout(timeout).build().map_err(|e| format!(
             "Unable to create HTTP client: {}", e))?;
 
@@ -112,6 +115,19 @@ impl HttpClient {
             status, body,
             headers: response.headers().clone(),
         })
+    }
+}
+
+// Verification hook (compiled only with `--cfg vsb_verif`): lets the checks in /verif point the hard-coded https://
+// provider endpoints to a local emulator: https://HOST/PATH -> $VSB_VERIF_HTTP_ENDPOINT/HOST/PATH
+#[cfg(vsb_verif)]
+fn verif_rewrite_url(url: &str) -> String {
+    match std::env::var("VSB_VERIF_HTTP_ENDPOINT") {
+        Ok(endpoint) if !endpoint.is_empty() => match url.strip_prefix("https://") {
+            Some(rest) => format!("{}/{}", endpoint.trim_end_matches('/'), rest),
+            None => url.to_owned(),
+        },
+        _ => url.to_owned(),
     }
 }
 
